@@ -43,13 +43,259 @@ Lemma hsum8 s0 s1 s2 s3 s4 s5 s6 s7 :
   ((pack [s0; s1; s2; s3; s4; s5; s6; s7] * 72340172838076673) mod 2 ^ 64) / 2 ^ 56
   = s0 + s1 + s2 + s3 + s4 + s5 + s6 + s7.
 Proof.
-  intros. cbn [pack]. change (2 ^ 64) with 18446744073709551616. change (2 ^ 56) with 72057594037927936. lia.
+  intros.
+  set (R := pack [s0; s0+s1; s0+s1+s2; s0+s1+s2+s3; s0+s1+s2+s3+s4; s0+s1+s2+s3+s4+s5; s0+s1+s2+s3+s4+s5+s6]).
+  set (T := s0 + s1 + s2 + s3 + s4 + s5 + s6 + s7).
+  set (Q := pack [s1+s2+s3+s4+s5+s6+s7; s2+s3+s4+s5+s6+s7; s3+s4+s5+s6+s7; s4+s5+s6+s7; s5+s6+s7; s6+s7; s7]).
+  assert (HR : R < 2 ^ 56) by (subst R; cbn [pack]; change (2 ^ 56) with 72057594037927936; lia).
+  assert (E : pack [s0; s1; s2; s3; s4; s5; s6; s7] * 72340172838076673 = (R + T * 2 ^ 56) + Q * 2 ^ 64).
+  { subst R T Q. cbn [pack]. change (2 ^ 64) with 18446744073709551616. change (2 ^ 56) with 72057594037927936. lia. }
+  rewrite E.
+  assert (HT : R + T * 2 ^ 56 < 2 ^ 64).
+  { subst T. change (2 ^ 64) with 18446744073709551616 in *. change (2 ^ 56) with 72057594037927936 in *. lia. }
+  rewrite N.mod_add by discriminate. rewrite N.mod_small by exact HT.
+  rewrite N.div_add by discriminate. rewrite N.div_small by exact HR. lia.
 Qed.
 
 Lemma hsum4 s0 s1 s2 s3 : s0 <= 24 -> s1 <= 24 -> s2 <= 24 -> s3 <= 24 ->
   ((pack [s0; s1; s2; s3] * 16843009) mod 2 ^ 32) / 2 ^ 24 = s0 + s1 + s2 + s3.
-Proof. intros. cbn [pack]. change (2 ^ 32) with 4294967296. change (2 ^ 24) with 16777216. lia. Qed.
+Proof.
+  intros.
+  set (R := pack [s0; s0+s1; s0+s1+s2]). set (T := s0 + s1 + s2 + s3). set (Q := pack [s1+s2+s3; s2+s3; s3]).
+  assert (HR : R < 2 ^ 24) by (subst R; cbn [pack]; change (2 ^ 24) with 16777216; lia).
+  assert (E : pack [s0; s1; s2; s3] * 16843009 = (R + T * 2 ^ 24) + Q * 2 ^ 32).
+  { subst R T Q. cbn [pack]. change (2 ^ 32) with 4294967296. change (2 ^ 24) with 16777216. lia. }
+  rewrite E.
+  assert (HT : R + T * 2 ^ 24 < 2 ^ 32).
+  { subst T. change (2 ^ 32) with 4294967296 in *. change (2 ^ 24) with 16777216 in *. lia. }
+  rewrite N.mod_add by discriminate. rewrite N.mod_small by exact HT.
+  rewrite N.div_add by discriminate. rewrite N.div_small by exact HR. lia.
+Qed.
+
+Lemma half_sum a b : a <= 24 -> b <= 24 -> ((a + 256 * b) * 256) mod 65536 / 256 + (a + 256 * b) / 256 = a + b.
+Proof.
+  intros Ha Hb.
+  replace ((a + 256 * b) * 256) with (a * 256 + b * 65536) by lia.
+  rewrite N.mod_add by discriminate. rewrite (N.mod_small (a * 256)) by lia. rewrite N.div_mul by discriminate.
+  replace (a + 256 * b) with (a + b * 256) by lia. rewrite N.div_add by discriminate. rewrite N.div_small by lia. lia.
+Qed.
 
 Lemma hsum_sse2 s0 s1 s2 s3 : s0 <= 24 -> s1 <= 24 -> s2 <= 24 -> s3 <= 24 ->
   granule_sum_sse2 (pack [s0; s1; s2; s3]) = s0 + s1 + s2 + s3.
-Proof. intros. unfold granule_sum_sse2. cbn [pack]. lia. Qed.
+Proof.
+  intros. unfold granule_sum_sse2. cbn [pack].
+  replace (s0 + 256 * (s1 + 256 * (s2 + 256 * (s3 + 256 * 0)))) with ((s0 + 256 * s1) + (s2 + 256 * s3) * 65536) by lia.
+  rewrite N.mod_add by discriminate. rewrite (N.mod_small (s0 + 256 * s1)) by lia.
+  rewrite N.div_add by discriminate. rewrite (N.div_small (s0 + 256 * s1) 65536) by lia. rewrite N.add_0_l.
+  rewrite !half_sum by assumption. lia.
+Qed.
+
+(* ---- what the exhaustive kernel sweeps give ---- *)
+
+Lemma kernel_ok_elim p out : kernel_ok p out = true -> forall a b, a < 256 -> b < 256 ->
+  lane_safe p out a b = true /\ eval 1 p out a b = byte_dist a b.
+Proof.
+  intros H a b Ha Hb. unfold kernel_ok in H. rewrite forallb_forall in H. specialize (H a (in_bytes256 _ Ha)).
+  rewrite forallb_forall in H. specialize (H b (in_bytes256 _ Hb)). apply andb_prop in H as [H1 H2].
+  apply N.eqb_eq in H2. split; assumption.
+Qed.
+
+Lemma byte_dist_le a b : a < 256 -> b < 256 -> byte_dist a b <= 24.
+Proof.
+  intros Ha Hb. pose proof byte_dist_le_24 as H. rewrite forallb_forall in H. specialize (H a (in_bytes256 _ Ha)).
+  rewrite forallb_forall in H. specialize (H b (in_bytes256 _ Hb)). apply N.leb_le in H. exact H.
+Qed.
+
+(* ---- list plumbing ---- *)
+
+Lemma sum_list_cons x l : sum_list (x :: l) = x + sum_list l.
+Proof.
+  unfold sum_list. cbn [fold_left]. rewrite N.add_0_l.
+  assert (G : forall l a b, fold_left N.add l (a + b) = a + fold_left N.add l b).
+  { induction l0 as [|y l0 IH]; intros a b; cbn [fold_left]; [reflexivity|]. rewrite <- N.add_assoc. apply IH. }
+  rewrite <- (N.add_0_r x) at 1. apply G.
+Qed.
+
+Lemma body_dist_cons x a y b : body_dist (x :: a) (y :: b) = byte_dist x y + body_dist a b.
+Proof. reflexivity. Qed.
+
+Lemma body_dist_split n : forall a b,
+  body_dist a b = body_dist (firstn n a) (firstn n b) + body_dist (skipn n a) (skipn n b).
+Proof.
+  induction n as [|n IH]; intros a b; [reflexivity|].
+  destruct a as [|x a]; [reflexivity|]. destruct b as [|y b].
+  - cbn [firstn skipn]. unfold body_dist. rewrite !combine_nil. reflexivity.
+  - cbn [firstn skipn]. rewrite !body_dist_cons, (IH a b). lia.
+Qed.
+
+Lemma chunks_sum (f : list N * list N -> N) n k : forall a b,
+  length a = (k * n)%nat -> length b = (k * n)%nat -> bytes_all a -> bytes_all b ->
+  (forall X Y, length X = n -> length Y = n -> bytes_all X -> bytes_all Y -> f (X, Y) = body_dist X Y) ->
+  sum_list (map f (combine (chunks_k n k a) (chunks_k n k b))) = body_dist a b.
+Proof.
+  induction k as [|k IH]; intros a b Ha Hb Ba Bb Hf.
+  - destruct a; [|discriminate]. reflexivity.
+  - cbn [chunks_k combine map]. rewrite sum_list_cons.
+    rewrite (body_dist_split n a b). f_equal.
+    + apply Hf; try (rewrite firstn_length; cbn [Nat.mul] in Ha, Hb; lia); apply bytes_all_firstn; assumption.
+    + apply IH; try (rewrite skipn_length; cbn [Nat.mul] in Ha, Hb; lia); try apply bytes_all_skipn; assumption.
+Qed.
+
+Lemma bytes4 X : length X = 4%nat -> bytes_all X ->
+  exists x0 x1 x2 x3, X = [x0; x1; x2; x3] /\ x0 < 256 /\ x1 < 256 /\ x2 < 256 /\ x3 < 256.
+Proof.
+  intros HL HB. destruct X as [|x0 [|x1 [|x2 [|x3 [|? ?]]]]]; try discriminate.
+  exists x0, x1, x2, x3. unfold bytes_all in HB.
+  inversion HB as [|? ? H0 HB1]; subst. inversion HB1 as [|? ? H1 HB2]; subst.
+  inversion HB2 as [|? ? H2 HB3]; subst. inversion HB3 as [|? ? H3 _]; subst. tauto.
+Qed.
+
+(* ---- one 4-lane granule / one 8-lane word ---- *)
+
+Lemma granule4 p out (gsum : N -> N) X Y :
+  kernel_ok p out = true ->
+  (forall s0 s1 s2 s3, s0 <= 24 -> s1 <= 24 -> s2 <= 24 -> s3 <= 24 -> gsum (pack [s0; s1; s2; s3]) = s0 + s1 + s2 + s3) ->
+  length X = 4%nat -> length Y = 4%nat -> bytes_all X -> bytes_all Y ->
+  gsum (eval 4 p out (pack X) (pack Y)) = body_dist X Y.
+Proof.
+  intros Hk Hg HX HY BX BY.
+  destruct (bytes4 X HX BX) as [x0 [x1 [x2 [x3 [-> [? [? [? ?]]]]]]]].
+  destruct (bytes4 Y HY BY) as [y0 [y1 [y2 [y3 [-> [? [? [? ?]]]]]]]].
+  pose proof (kernel_ok_elim p out Hk) as K.
+  pose proof (lane_homomorphism p out [x0; x1; x2; x3] [y0; y1; y2; y3]) as L.
+  cbn [length] in L. rewrite L; [| discriminate | reflexivity |].
+  2:{ intros a b Hab. cbn [combine In] in Hab.
+      destruct Hab as [E|[E|[E|[E|[]]]]]; injection E as <- <-; apply K; assumption. }
+  unfold map2. cbn [combine map fst snd].
+  rewrite !(fun a b Ha Hb => proj2 (K a b Ha Hb)) by assumption.
+  rewrite Hg by (apply byte_dist_le; assumption).
+  rewrite !body_dist_cons. unfold body_dist. cbn [combine map sum]. lia.
+Qed.
+
+Lemma granule8 p out X Y :
+  kernel_ok p out = true ->
+  length X = 8%nat -> length Y = 8%nat -> bytes_all X -> bytes_all Y ->
+  wrap32 (((eval 8 p out (pack X) (pack Y) * 72340172838076673) mod 2 ^ 64) / 2 ^ 56) = body_dist X Y.
+Proof.
+  intros Hk HX HY BX BY.
+  rewrite <- (firstn_skipn 4 X) in *. rewrite <- (firstn_skipn 4 Y) in *.
+  apply bytes_all_app in BX as [BX1 BX2]. apply bytes_all_app in BY as [BY1 BY2].
+  assert (L1 : length (firstn 4 X) = 4%nat) by (rewrite app_length, firstn_length, skipn_length in HX; rewrite firstn_length; lia).
+  assert (L2 : length (skipn 4 X) = 4%nat) by (rewrite app_length, firstn_length, skipn_length in HX; rewrite skipn_length; lia).
+  assert (L3 : length (firstn 4 Y) = 4%nat) by (rewrite app_length, firstn_length, skipn_length in HY; rewrite firstn_length; lia).
+  assert (L4 : length (skipn 4 Y) = 4%nat) by (rewrite app_length, firstn_length, skipn_length in HY; rewrite skipn_length; lia).
+  destruct (bytes4 _ L1 BX1) as [x0 [x1 [x2 [x3 [-> [? [? [? ?]]]]]]]].
+  destruct (bytes4 _ L2 BX2) as [x4 [x5 [x6 [x7 [-> [? [? [? ?]]]]]]]].
+  destruct (bytes4 _ L3 BY1) as [y0 [y1 [y2 [y3 [-> [? [? [? ?]]]]]]]].
+  destruct (bytes4 _ L4 BY2) as [y4 [y5 [y6 [y7 [-> [? [? [? ?]]]]]]]].
+  cbn [app].
+  pose proof (kernel_ok_elim p out Hk) as K.
+  pose proof (lane_homomorphism p out [x0; x1; x2; x3; x4; x5; x6; x7] [y0; y1; y2; y3; y4; y5; y6; y7]) as L.
+  cbn [length] in L. rewrite L; [| discriminate | reflexivity |].
+  2:{ intros a b Hab. cbn [combine In] in Hab.
+      destruct Hab as [E|[E|[E|[E|[E|[E|[E|[E|[]]]]]]]]]; injection E as <- <-; apply K; assumption. }
+  unfold map2. cbn [combine map fst snd].
+  rewrite !(fun a b Ha Hb => proj2 (K a b Ha Hb)) by assumption.
+  rewrite hsum8 by (apply byte_dist_le; assumption).
+  pose proof (byte_dist_le x0 y0) as B0. pose proof (byte_dist_le x1 y1) as B1. pose proof (byte_dist_le x2 y2) as B2.
+  pose proof (byte_dist_le x3 y3) as B3. pose proof (byte_dist_le x4 y4) as B4. pose proof (byte_dist_le x5 y5) as B5.
+  pose proof (byte_dist_le x6 y6) as B6. pose proof (byte_dist_le x7 y7) as B7.
+  unfold wrap32. rewrite N.mod_small by lia.
+  rewrite !body_dist_cons. unfold body_dist. cbn [combine map sum]. lia.
+Qed.
+
+(* ---- every body backend = reference body distance ---- *)
+
+Definition body_len (n : nat) : Prop := n = 12%nat \/ n = 32%nat \/ n = 64%nat.
+
+Lemma sub32_spec X Y : length X = 4%nat -> length Y = 4%nat -> bytes_all X -> bytes_all Y ->
+  sub_distance_32 (word_of X) (word_of Y) = body_dist X Y.
+Proof.
+  intros. unfold sub_distance_32, word_of.
+  apply (granule4 pseudo32_lanes pseudo32_out (fun s => ((s * 16843009) mod 2 ^ 32) / 2 ^ 24)); try assumption.
+  - exact pseudo32_ok.
+  - exact hsum4.
+Qed.
+
+Lemma sub64_spec X Y : length X = 8%nat -> length Y = 8%nat -> bytes_all X -> bytes_all Y ->
+  sub_distance_64 (word_of X) (word_of Y) = body_dist X Y.
+Proof. intros. unfold sub_distance_64, word_of. apply granule8; try assumption. exact pseudo64_ok. Qed.
+
+Lemma body_pseudo32_spec a b : body_len (length a) -> length b = length a -> bytes_all a -> bytes_all b ->
+  body_pseudo32 a b = body_dist a b.
+Proof.
+  intros HL Hb Ba Bb. unfold body_pseudo32, chunks_exact. rewrite Hb.
+  apply (chunks_sum (fun p => sub_distance_32 (word_of (fst p)) (word_of (snd p)))); try assumption.
+  - destruct HL as [E|[E|E]]; rewrite E; reflexivity.
+  - rewrite Hb. destruct HL as [E|[E|E]]; rewrite E; reflexivity.
+  - intros X Y HX HY BX BY. cbn [fst snd]. apply sub32_spec; assumption.
+Qed.
+
+Lemma body_pseudo64_spec a b : body_len (length a) -> length b = length a -> bytes_all a -> bytes_all b ->
+  body_pseudo64 a b = body_dist a b.
+Proof.
+  intros HL Hb Ba Bb. unfold body_pseudo64.
+  destruct (Nat.eqb_spec (length a) 12) as [E12|N12].
+  - rewrite (body_dist_split 8 a b). f_equal.
+    + apply sub64_spec; try (rewrite firstn_length; lia); apply bytes_all_firstn; assumption.
+    + apply sub32_spec; try (rewrite skipn_length; lia); apply bytes_all_skipn; assumption.
+  - unfold chunks_exact. rewrite Hb.
+    apply (chunks_sum (fun p => sub_distance_64 (word_of (fst p)) (word_of (snd p)))); try assumption.
+    + destruct HL as [E|[E|E]]; rewrite E; try reflexivity. contradiction.
+    + rewrite Hb. destruct HL as [E|[E|E]]; rewrite E; try reflexivity. contradiction.
+    + intros X Y HX HY BX BY. cbn [fst snd]. apply sub64_spec; assumption.
+Qed.
+
+Lemma body_x86_spec lanes out gsum a b :
+  kernel_ok lanes out = true ->
+  (forall s0 s1 s2 s3, s0 <= 24 -> s1 <= 24 -> s2 <= 24 -> s3 <= 24 -> gsum (pack [s0; s1; s2; s3]) = s0 + s1 + s2 + s3) ->
+  body_len (length a) -> length b = length a -> bytes_all a -> bytes_all b ->
+  body_x86 lanes out gsum a b = body_dist a b.
+Proof.
+  intros Hk Hg HL Hb Ba Bb. unfold body_x86, chunks_exact. rewrite Hb.
+  apply (chunks_sum (fun p => gsum (eval 4 lanes out (word_of (fst p)) (word_of (snd p))))); try assumption.
+  - destruct HL as [E|[E|E]]; rewrite E; reflexivity.
+  - rewrite Hb. destruct HL as [E|[E|E]]; rewrite E; reflexivity.
+  - intros X Y HX HY BX BY. cbn [fst snd]. unfold word_of. apply granule4; assumption.
+Qed.
+
+Theorem dist_body_spec c a b : body_len (length a) -> length b = length a -> bytes_all a -> bytes_all b ->
+  dist_body c a b = body_dist a b.
+Proof.
+  intros HL Hb Ba Bb. unfold dist_body.
+  destruct (Nat.eqb (length a) 12).
+  - destruct (cc_body c =? 0); [apply body_pseudo32_spec | apply body_pseudo64_spec]; assumption.
+  - destruct (cc_body c =? 0); [apply body_pseudo32_spec; assumption|].
+    destruct (cc_body c =? 1); [apply body_pseudo64_spec; assumption|].
+    destruct (cc_body c =? 2); [apply body_x86_spec; try assumption; [exact sse2_ok | exact hsum_sse2]|].
+    destruct (cc_body c =? 3); [apply body_x86_spec; try assumption; [exact sse41_ok | exact hsum4]|].
+    apply body_x86_spec; try assumption; [exact avx2_ok | exact hsum4].
+Qed.
+
+(* ---- the whole comparison ---- *)
+
+Lemma body_len_of v h : is_variant v -> hash_okb v h -> body_len (length (h_body h)).
+Proof.
+  intros Hv [_ [Hb _]]. unfold lenN in Hb. unfold body_len.
+  destruct Hv;
+    [ change (size_body V_Short) with 12 in Hb; left
+    | change (size_body V_Normal) with 32 in Hb; right; left
+    | change (size_body V_NormalLong) with 32 in Hb; right; left
+    | change (size_body V_Long) with 64 in Hb; right; right
+    | change (size_body V_LongLong) with 64 in Hb; right; right ]; lia.
+Qed.
+
+Theorem compare_is_reference_lemma c v a b m :
+  is_variant v -> hash_okb v a -> hash_okb v b ->
+  @compare unit c a b m = Ok (spec_distance a b m).
+Proof.
+  intros Hv Ha Hb. pose proof (body_len_of v a Hv Ha) as La. pose proof (body_len_of v b Hv Hb) as Lb.
+  destruct Ha as [Hac [Hab [Bac [Bab [Hal Haq]]]]]. destruct Hb as [Hbc [Hbb [Bbc [Bbb [Hbl Hbq]]]]].
+  assert (Hlen : length (h_body b) = length (h_body a)) by (unfold lenN in *; lia).
+  unfold compare, spec_distance.
+  rewrite (dist_q_spec c _ _ Haq Hbq). cbn [bind].
+  rewrite dist_body_spec by assumption. rewrite dist_cks_spec.
+  destruct m.
+  - rewrite (dist_length_spec c _ _ Hal Hbl). cbn [bind]. reflexivity.
+  - cbn [bind]. reflexivity.
+Qed.
